@@ -433,6 +433,21 @@ pub enum Action {
         #[serde(default)]
         payload: Option<String>,
     },
+    /// `count` distinct valid requests (nonce seeds `nonce_base..`), one every `interval_ns`,
+    /// rotating over `socks` client sockets starting at `first_sock`; `ietf_permille` of them
+    /// IETF. One plan step stands for a long run (tens of thousands of requests).
+    /// `burst_max` > 1: requests leave in groups of 1..=burst_max (seeded), the pause after a
+    /// group growing with it, so that batches of every size get signed.
+    Stream {
+        first_sock: u32,
+        socks: u32,
+        ietf_permille: u32,
+        interval_ns: u64,
+        count: u32,
+        nonce_base: u64,
+        #[serde(default)]
+        burst_max: u32,
+    },
     StartRefServer(RefServerSpec),
 }
 
